@@ -350,3 +350,279 @@ func genCf(rng *core.Rand) string {
 	}
 	return "cf " + field + " " + durTable(toks)
 }
+
+// ---------------------------------------------------------------- the reverse_proxy directive (`rp` lines)
+
+// addrEntry: what a token stands for as an upstream address — found by letting the real handler
+// parse `reverse_proxy <token>`.
+func addrEntry(tok string) ([]string, bool) {
+	h := &reverseproxy.Handler{}
+	d := caddyfile.NewDispenser([]caddyfile.Token{{File: "Caddyfile", Line: 1, Text: "reverse_proxy"}, {File: "Caddyfile", Line: 1, Text: tok}})
+	ok := true
+	func() {
+		defer func() {
+			if recover() != nil {
+				ok = false
+			}
+		}()
+		if err := h.UnmarshalCaddyfile(d); err != nil {
+			ok = false
+		}
+	}()
+	if !ok || tok == "{" {
+		return nil, false
+	}
+	var dials []string
+	for _, u := range h.Upstreams {
+		dials = append(dials, u.Dial)
+	}
+	return dials, true
+}
+
+func addrTable(toks []cfTok) string {
+	seen := map[string]bool{}
+	var p []string
+	for _, t := range toks {
+		if seen[t.text] {
+			continue
+		}
+		seen[t.text] = true
+		if dials, ok := addrEntry(t.text); ok {
+			v := "_"
+			if len(dials) > 0 {
+				var hs []string
+				for _, dl := range dials {
+					hs = append(hs, core.Hex(dl))
+				}
+				v = strings.Join(hs, "|")
+			}
+			p = append(p, core.Hex(t.text)+":"+v)
+		}
+	}
+	if len(p) == 0 {
+		return "-"
+	}
+	return strings.Join(p, ",")
+}
+
+func runRp(f []string) (o core.Outcome) {
+	bad := core.Outcome{Impl: "bad-op", Tags: []string{"bad-op", "trivial"}}
+	if len(f) != 4 {
+		return bad
+	}
+	toks, ok := parseCfToks(f[1])
+	if !ok && len(toks) == 0 {
+		return bad
+	}
+	if len(toks) > 64 {
+		return bad
+	}
+	if f[2] != durTable(toks) || f[3] != addrTable(toks) {
+		if _, ok := parseDurOK(f[2]); !ok {
+			return bad
+		}
+		return core.Outcome{Impl: "bad-table", Tags: []string{"bad-table"}}
+	}
+	var ts []caddyfile.Token
+	for _, t := range toks {
+		ts = append(ts, caddyfile.Token{File: "Caddyfile", Line: t.line, Text: t.text})
+	}
+	defer func() {
+		if r := recover(); r != nil {
+			o = core.Outcome{Impl: "panic", Tags: []string{"rp:panic"},
+				Failures: []core.Failure{{Class: "unexpected-panic:caddyfile", What: fmt.Sprint(r)}}}
+		}
+	}()
+	h := &reverseproxy.Handler{}
+	err := h.UnmarshalCaddyfile(caddyfile.NewDispenser(ts))
+	o.Tags = []string{"rp"}
+	if err != nil {
+		o.Impl = "err"
+		o.Tags = append(o.Tags, "rp:err")
+		if want, ok := cfExpect[f[1]]; ok && want != o.Impl {
+			o.Failures = append(o.Failures, core.Failure{Class: "caddyfile-policy-not-as-written",
+				What: fmt.Sprintf("reverse_proxy tokens %v were refused, written to mean %q", toks, want)})
+		}
+		return o
+	}
+	ups := "-"
+	if len(h.Upstreams) > 0 {
+		var p []string
+		for _, u := range h.Upstreams {
+			p = append(p, core.Hex(u.Dial))
+		}
+		ups = strings.Join(p, ",")
+	}
+	pol, r, td, ti := "-", 0, int64(0), int64(0)
+	if lb := h.LoadBalancing; lb != nil {
+		r, td, ti = lb.Retries, int64(time.Duration(lb.TryDuration)), int64(time.Duration(lb.TryInterval))
+		if lb.SelectionPolicyRaw != nil {
+			var probe struct {
+				Policy string `json:"policy"`
+			}
+			_ = json.Unmarshal(lb.SelectionPolicyRaw, &probe)
+			mod, err := caddy.GetModule("http.reverse_proxy.selection_policies." + probe.Policy)
+			if err != nil {
+				o.Impl = "?"
+				return o
+			}
+			inst := mod.New()
+			var m map[string]json.RawMessage
+			_ = json.Unmarshal(lb.SelectionPolicyRaw, &m)
+			delete(m, "policy")
+			rest, _ := json.Marshal(m)
+			if err := caddy.StrictUnmarshalJSON(rest, inst); err != nil {
+				o.Impl = "?"
+				return o
+			}
+			pol, _ = canonSel(probe.Policy, inst)
+			o.Tags = append(o.Tags, "rp:lb_policy")
+		}
+	}
+	p := "-"
+	if h.HealthChecks != nil && h.HealthChecks.Passive != nil {
+		ph := h.HealthChecks.Passive
+		p = fmt.Sprintf("%d,%d,%d", ph.MaxFails, int64(time.Duration(ph.FailDuration)), ph.UnhealthyRequestCount)
+		o.Tags = append(o.Tags, "rp:passive")
+	}
+	o.Impl = fmt.Sprintf("ok ups=%s pol=%s r=%d td=%d ti=%d p=%s", ups, pol, r, td, ti, p)
+	if want, ok := cfExpect[f[1]]; ok && want != o.Impl {
+		o.Failures = append(o.Failures, core.Failure{Class: "caddyfile-policy-not-as-written",
+			What: fmt.Sprintf("reverse_proxy tokens %v were configured as %q, written to mean %q", toks, o.Impl, want)})
+	}
+	return o
+}
+
+func genRp(rng *core.Rand) string {
+	var toks []cfTok
+	line := 1
+	toks = append(toks, cfTok{"reverse_proxy", line})
+	var ups []string
+	for i := rng.Intn(3); i > 0; i-- {
+		a := fmt.Sprintf("h%d.test:80", rng.Intn(9))
+		if rng.Chance(1, 8) {
+			a = "h.test:8001-8003"
+		}
+		toks = append(toks, cfTok{a, line})
+		ups = append(ups, a)
+	}
+	toks = append(toks, cfTok{"{", line})
+	line++
+	pol, r, td, ti := "-", "0", "0", "0"
+	mf, fd, urc, passive := "0", "0", "0", false
+	seen := map[string]bool{}
+	opts := []string{"to", "lb_policy", "lb_retries", "lb_try_duration", "lb_try_interval", "max_fails", "fail_duration", "unhealthy_request_count"}
+	for i := rng.Intn(6); i > 0; i-- {
+		o := rng.Pick(opts)
+		if o == "lb_policy" && seen[o] {
+			continue
+		}
+		seen[o] = true
+		toks = append(toks, cfTok{o, line})
+		durs := []string{"5s", "250ms", "1m", "2d"}
+		switch o {
+		case "to":
+			for j := 1 + rng.Intn(2); j > 0; j-- {
+				a := fmt.Sprintf("h%d.test:80", rng.Intn(9))
+				toks = append(toks, cfTok{a, line})
+				ups = append(ups, a)
+			}
+		case "lb_policy":
+			pol = genCfNode(rng, 1).render(&toks, &line)
+			// render appended the policy name itself on this line: fine, it follows `lb_policy`
+		case "lb_retries":
+			r = strconv.Itoa(rng.Intn(6))
+			toks = append(toks, cfTok{r, line})
+		case "lb_try_duration":
+			v := rng.Pick(durs)
+			dd, _ := caddy.ParseDuration(v)
+			td = strconv.FormatInt(int64(dd), 10)
+			toks = append(toks, cfTok{v, line})
+		case "lb_try_interval":
+			v := rng.Pick(durs)
+			dd, _ := caddy.ParseDuration(v)
+			ti = strconv.FormatInt(int64(dd), 10)
+			toks = append(toks, cfTok{v, line})
+		case "max_fails":
+			mf = strconv.Itoa(1 + rng.Intn(4))
+			passive = true
+			toks = append(toks, cfTok{mf, line})
+		case "fail_duration":
+			v := rng.Pick(durs)
+			dd, _ := caddy.ParseDuration(v)
+			fd = strconv.FormatInt(int64(dd), 10)
+			passive = true
+			toks = append(toks, cfTok{v, line})
+		case "unhealthy_request_count":
+			urc = strconv.Itoa(1 + rng.Intn(50))
+			passive = true
+			toks = append(toks, cfTok{urc, line})
+		}
+		line++
+	}
+	dupPolicy := false
+	if seen["lb_policy"] && rng.Chance(1, 3) {
+		// a second lb_policy in the same block must be refused, not silently win
+		dupPolicy = true
+		toks = append(toks, cfTok{"lb_policy", line}, cfTok{rng.Pick([]string{"first", "random", "least_conn", "round_robin"}), line})
+		line++
+	}
+	toks = append(toks, cfTok{"}", line})
+	wellFormed := true
+	for m := rng.Intn(4); m > 0 && rng.Chance(1, 2); m-- {
+		wellFormed = false
+		i := 1 + rng.Intn(len(toks))
+		switch rng.Intn(5) {
+		case 0:
+			l := toks[i-1].line
+			junk := append([]string{"lb_policy", "first", "lb_retries", "to", "bogus", "h1.test:80"}, cfJunk...)
+			toks = append(toks[:i], append([]cfTok{{junk[rng.Intn(len(junk))], l}}, toks[i:]...)...)
+		case 1:
+			if len(toks) > 2 && i < len(toks) {
+				toks = append(toks[:i], toks[i+1:]...)
+			}
+		case 2:
+			if i < len(toks) {
+				old := toks[i].line
+				for j := i; j < len(toks); j++ {
+					if toks[j].line >= old && toks[j].line > 0 {
+						toks[j].line--
+					}
+				}
+			}
+		case 3:
+			for j := i; j < len(toks); j++ {
+				toks[j].line++
+			}
+		case 4:
+			if i < len(toks) {
+				toks[i].text = rng.Pick(cfJunk)
+			}
+		}
+	}
+	field := cfToksField(toks)
+	if wellFormed {
+		// port ranges expand
+		var dials []string
+		for _, a := range ups {
+			if a == "h.test:8001-8003" {
+				dials = append(dials, core.Hex("h.test:8001"), core.Hex("h.test:8002"), core.Hex("h.test:8003"))
+			} else {
+				dials = append(dials, core.Hex(a))
+			}
+		}
+		u := "-"
+		if len(dials) > 0 {
+			u = strings.Join(dials, ",")
+		}
+		p := "-"
+		if passive {
+			p = mf + "," + fd + "," + urc
+		}
+		cfExpect[field] = fmt.Sprintf("ok ups=%s pol=%s r=%s td=%s ti=%s p=%s", u, pol, r, td, ti, p)
+		if dupPolicy {
+			cfExpect[field] = "err"
+		}
+	}
+	return "rp " + field + " " + durTable(toks) + " " + addrTable(toks)
+}
